@@ -1,5 +1,6 @@
 """C18 - payment requests cannot be forged or altered (structural part: "parse => signature verified", metadata verification, TLV ranges)."""
 from engine import *
+import ordimpls
 import re
 import provenance
 import tlv, os
@@ -584,4 +585,5 @@ RULES = [
 	('18.x', 'range indexing of fixed-size buffers stays in bounds wherever the end is statically bounded (a wire length byte can be 255; rules/provenance.py)', lambda F: provenance.arrays_for_property(F, 'C18', '18.x')),
 	('18.s', 'no reviewed function gained a short-circuiting iterator adaptor (find / find_map / take / position ...: an every-element walk that stops at the first match; rules/provenance.py)', lambda F: provenance.sc_for_property(F, 'C18', '18.s')),
 	('18.y', 'no reviewed function gained a swallowed error (the Result of a fallible in-crate call dropped; rules/provenance.py)', lambda F: provenance.dr_for_property(F, 'C18', '18.y')),
+	('18.o', 'hand-written eq / cmp / partial_cmp / hash impls in this property\'s files: same field on both sides, reviewed direction, no reviewed key lost, hash within eq (rules/ordimpls.py)', lambda F: ordimpls.for_property(F, 'C18', '18.o')),
 ]
